@@ -85,9 +85,13 @@ def gen_scenario(rng, sid, combo, flavour):
         other = [c for c in (0, 7, 9) if c != code]
         stops.append({"from": rng.choice(FROMS), "arb": rng.choice(live), "code": rng.choice(other),
                       "delay": rng.randint(0, 2)})
+    # an extra arbiter created by a task on the system thread while the system runs: racing the stop (late), or
+    # followed at once by a stop issued by its creator (fresh arbiter: registered before new() returned?)
+    late = rng.random() < 0.2
+    late_stop = rng.choice([0, 7]) if late and rng.random() < 0.5 else None
     return {"id": sid, "seed": rng.getrandbits(48), "api": rng.choice(["run", "run_with_code"]),
             "arbs": arbs, "senders": senders, "stops": stops, "concurrent": rng.random() < 0.5,
-            "late": rng.random() < 0.12, "blockon": [rng.randint(-1000, 1000) for _ in range(rng.randint(0, 3))],
+            "late": late, "late_stop": late_stop, "blockon": [rng.randint(-1000, 1000) for _ in range(rng.randint(0, 3))],
             "flavour": flavour}
 
 
@@ -128,7 +132,7 @@ def nt_summaries(stdout):
 
 def validate(ctx, tcfg, runs, tag, chunk=1000):
     """TLC over the recorded runs (chunks of `chunk` runs per JVM).  Returns (accepted, rejects, summaries)
-    with rejects = [(run_index, record_index, predicate)]."""
+    with rejects = [(run_index, record_index, predicate)], summaries = [(run_index, antecedent summary)]."""
     accepted, rejects, summaries = 0, [], []
     for c0 in range(0, len(runs), chunk):
         part = runs[c0:c0 + chunk]
@@ -146,9 +150,10 @@ def validate(ctx, tcfg, runs, tag, chunk=1000):
                                     tag="%s-%s-%d-%d-%d" % (ctx.prop, tag, os.getpid(), c0, rounds))
             ctx.cov["trace_tlc_states"] = ctx.cov.get("trace_tlc_states", 0) + v.tlc.distinct
             ctx.cov["trace_tlc_wall_s"] = round(ctx.cov.get("trace_tlc_wall_s", 0) + v.tlc.wall, 1)
+            nts = nt_summaries(v.tlc.stdout)          # one per completed run, in order
+            summaries += [(c0 + remaining[k], nts[k]) for k in range(min(len(nts), len(remaining)))]
             if v.accepted:
                 accepted += len(remaining)
-                summaries += nt_summaries(v.tlc.stdout)
                 break
             if v.violated is None:
                 sys.stdout.write("\n".join(v.tlc.stdout.splitlines()[-30:]) + "\n")
@@ -189,10 +194,73 @@ def model_checks(ctx, cfgs, negs, live=None):
         ctx.expect_neg(MOD, ncfg, exp, workers=8)
 
 
+# --------------------------------------------------------------------------------------------
+# vacuity guard of the binding: hand-written histories that contradict one clause each must be rejected
+# by the trace spec with that predicate (otherwise the trace check could not raise it: tool error)
+# --------------------------------------------------------------------------------------------
+def _t(*evs):
+    pre = [{"ev": "reset"}, {"ev": "Thread", "role": "sys", "tid": 1}, {"ev": "SysUp", "sysid": 0},
+           {"ev": "ArbNewEnd", "arb": 1}, {"ev": "ArbNewEnd", "arb": 2}, {"ev": "Thread", "role": "owner", "tid": 2}]
+    recs = pre + list(evs) + [{"ev": "End"}]
+    return [dict(r, seq=i, tid=r.get("tid", 2), run=0) for i, r in enumerate(recs)]
+
+
+def _send(i, ok=True, arb=1):
+    return [{"ev": "SendStart", "id": i, "arb": arb, "kind": "spawn", "body": "done", "via": "handle"},
+            {"ev": "SendEnd", "id": i, "arb": arb, "ok": ok}]
+
+
+def _start(i, tid=5, arb=1):
+    return {"ev": "TaskStart", "id": i, "arb": arb, "cur": "ok", "sysid": 0, "tid": tid}
+
+
+_STOP1 = [{"ev": "StopCallStart", "arb": 1}, {"ev": "StopCallEnd", "arb": 1, "ok": True}]
+
+
+def _sys(code):
+    return [{"ev": "SysStopStart", "code": code, "via": "foreign"}, {"ev": "SysStopEnd", "code": code}]
+
+
+TAMPERED = {
+    "C09": [
+        ("C09_FirstCodeWins", _t(*_sys(7), *_sys(9), {"ev": "RunReturned", "api": "run_with_code", "ok": True, "code": 9})),
+        ("C09_FirstCodeWins", _t(*_sys(7), {"ev": "RunTimeout"})),
+        ("C09_RunErrOnNonZero", _t(*_sys(7), {"ev": "RunReturned", "api": "run", "ok": True, "code": 0})),
+        ("C09_AllRegisteredStop", _t(*_sys(0), {"ev": "RunReturned", "api": "run", "ok": True, "code": 0},
+                                     {"ev": "JoinReturned", "arb": 1}, {"ev": "JoinTimeout", "arb": 2, "phase": "sys"})),
+        ("C09_EarlyStoppedDeregistered", _t(*_STOP1, {"ev": "JoinReturned", "arb": 1}, *_send(1, True), _start(1))),
+    ],
+    "C10": [
+        ("C10_StartOrderRespectsSendOrder", _t(*_send(1), *_send(2), _start(2), _start(1))),
+        ("C10_StartOrderRespectsSendOrder", _t(*_send(1), *_send(2), _start(2), *_STOP1, {"ev": "JoinReturned", "arb": 1})),
+        ("C10_AtMostOnce", _t(*_send(1), _start(1), _start(1))),
+        ("C10_OnOwnThread", _t(*_send(1), _start(1, tid=2))),
+        ("C10_OnOwnThread", _t(*_send(1), *_send(2, arb=2), _start(1, tid=5), _start(2, tid=5, arb=2))),
+        ("C10_NothingAfterStop", _t(*_STOP1, *_send(1), _start(1))),
+        ("C10_SpawnFalseWhenGone", _t(*_STOP1, {"ev": "JoinReturned", "arb": 1}, *_send(1, True))),
+        ("C10_JoinAfterLoopEnd", _t(*_send(1), *_STOP1, {"ev": "JoinReturned", "arb": 1}, _start(1))),
+        ("C10_BlockOnOutput", _t({"ev": "BlockOn", "what": "x", "expected": 1, "got": 2})),
+    ],
+}
+
+
+def binding_vacuity_guard(ctx, tcfg):
+    cases = TAMPERED[ctx.prop]
+    for k, (pred, run) in enumerate(cases):
+        acc, rej, _ = validate(ctx, tcfg, [run], "guard%d" % k)
+        got = rej[0][2] if rej else None
+        if got != pred:
+            raise vlib.ToolError("binding vacuity guard: hand-written history %d should violate %s, TLC says %s" % (k, pred, got))
+    ctx.cov["binding_guard_histories_rejected"] = len(cases)
+    vlib.log("binding guard: %d hand-written contradicting histories rejected by %s" % (len(cases), tcfg))
+
+
+
 def flow(ctx, *, flavour, tcfg, nt_rule, nontrivial):
     vlib.cargo_build(["vrt"])
     for m in ("rt/RtProps.tla", MOD, TMOD):
         vlib.sany(m)
+    binding_vacuity_guard(ctx, tcfg)
     count = 200 if ctx.quick else 5000
     scen = gen_scenarios(ctx.rng, count, flavour)
     summ, runs = run_driver(ctx, scen, flavour)
@@ -204,7 +272,10 @@ def flow(ctx, *, flavour, tcfg, nt_rule, nontrivial):
     ctx.cov["impl_records"] = sum(len(r) for r in runs)
     ctx.cov["driver_runs_with_watchdog_expiry"] = summ["mismatches"]
     ctx.cov["driver_aborted_early"] = bool(summ.get("aborted"))
-    ctx.cov["distinct_nontrivial"] += sum(1 for s in summaries if nontrivial(s))
+    def content(sc):
+        return json.dumps({k: v for k, v in sc.items() if k not in ("id", "seed")}, sort_keys=True)
+    ctx.cov["distinct_nontrivial"] += len({content(scen[runs[ri][0]["run"]]) for ri, s in summaries if nontrivial(s)})
+    summaries = [s for _, s in summaries]
     ctx.cov["rule"] = nt_rule
     ctx.cov["antecedent_counts"] = {k: sum(1 for s in summaries if s.get(k) is True) for k in
                                     ("order", "started", "afterStop", "afterGone", "mustStop", "twoStops", "early")}
@@ -251,7 +322,8 @@ def run(ctx):
                                      "<= 2 stops from clients or tasks, codes {0,7}"),
                 ("MC_C09_calls.cfg", "exhaustive: three-phase calls from 2 threads, join observed at any time")]
     else:
-        cfgs = [("MC_C09_thorough.cfg", "exhaustive: 3 worker arbiters, 4 calls, busy tasks"),
+        cfgs = [("MC_C09_thorough.cfg", "exhaustive: 3 worker arbiters (1 created dynamically), 3 calls, busy tasks"),
+                ("MC_C09_thorough2.cfg", "exhaustive: 2 worker arbiters both created dynamically, 4 calls, busy tasks"),
                 ("MC_C09_quick.cfg", "exhaustive small"), ("MC_C09_calls.cfg", "three-phase calls")]
     model_checks(ctx, cfgs, NEGS_C09, live="LIVE_C09.cfg")
     ctx.cov["exhaustive"] = True
